@@ -22,6 +22,11 @@ CLAIMED = {
         note=PROOF_NOTE + "parser acceptance itself is full_moon's (assumed `construct parses iff an enabling dialect is on`, validated on the matrix only); translator for the std headers is regex-based and trusted.",
         technique="Lean 4 theorems (C16_union, C16_accepts, C16_builtin by decide over a regenerated table) + correspondence with lua_version() and full_moon::parse_fallible",
         design="§4 C16"),
+    "C19": dict(
+        text="Machine-checked proof that the model of the CLI's counting and exit logic exits 0 iff no error / parse error / unopenable file / library error / crashed worker occurred and (no warning or --allow-warnings), that the printed totals equal the per-severity counts of printed diagnostics plus unopenable files, that Allow diagnostics contribute nothing, and that exclusion is exactly the documented filter; tied to the real binary by runs over forced sign patterns x flags x styles x severity configs, including provoked worker crashes.",
+        note=PROOF_NOTE + "globset matching is abstract (file names chosen so that the pattern's verdict is known); per-file outcomes are observed by single-file runs of the same binary.",
+        technique="Lean 4 theorems over the exit/count model (C19_exit by omega, C19_totals, C19_exclude) + CLI correspondence runs",
+        design="§4 C19"),
 }
 
 ALL = [f"C{i:02d}" for i in range(1, 21)]
